@@ -26,13 +26,16 @@ static const char *POINTS[] = {
     // events signalled by the harness itself once the call has RETURNED and its observations are taken
     "ctl.start_returned", "ctl.stop_returned", "ctl.destroyed",
     // loop thread again (ids are stable: new points are only ever appended): the wait predicate HAS been evaluated
-    "loop.predicate_true", "loop.predicate_false"};
+    "loop.predicate_true", "loop.predicate_false",
+    // signalled by the harness's loop body itself (the loop thread is INSIDE a body invocation)
+    "body.inside"};
 constexpr int NPOINTS = sizeof(POINTS) / sizeof(POINTS[0]);
 constexpr int NLOOP = 9;  // points 0..8 belong to the loop thread ...
-static const int LOOP_POINTS[] = {0, 1, 2, 3, 4, 5, 6, 7, 8, 26, 27};  // ... and so do the appended ones
+static const int LOOP_POINTS[] = {0, 1, 2, 3, 4, 5, 6, 7, 8, 26, 27, 28};  // ... and so do the appended ones
 static const int CTL_POINTS[] = {9, 10, 11, 12, 13, 14, 15, 16, 17, 18, 19, 20, 21, 22, 23, 24, 25};
 constexpr int NLOOPPTS = sizeof(LOOP_POINTS) / sizeof(int), NCTLPTS = sizeof(CTL_POINTS) / sizeof(int);
 static inline bool isLoopPoint(int id) { return id < NLOOP || id >= 26; }
+static void hookFn(const char *point, const void *);
 
 struct Rule
 {
@@ -154,6 +157,7 @@ static void run_case(const Case &c, pbt::Ctx &ctx)
   auto body = [mon, bodyUs]() {
     mon->inBody.fetch_add(1);
     mon->entries.fetch_add(1);
+    hookFn("body.inside", nullptr);  // a pause rule can keep the loop thread inside the body
     burn(bodyUs);
     mon->inBody.fetch_sub(1);
   };
@@ -338,7 +342,10 @@ static void enumerate(pbt::SweepResult<EnumCase> &r)
   };
   // (1) pin pairs: every loop point P x arrival j, entered calls X in {start, stop, destructor}, release events Y
   const int ENTER[] = {9, 14, 18};
-  for (int prog = 0; prog < (thorough ? (int)PROGRAMS.size() : 3); prog += (thorough ? 1 : 2))
+  for (int prog = 0; prog < (int)PROGRAMS.size(); ++prog) {
+    // quick tier: programs 0 and 2 (stop-heavy) and 5 (destroyed while running)
+    if (!thorough && !(prog == 0 || prog == 2 || prog == 5))
+      continue;
     for (int P : LOOP_POINTS)
       for (int j = 1; j <= 2; ++j)
         for (int X : ENTER)
@@ -355,6 +362,7 @@ static void enumerate(pbt::SweepResult<EnumCase> &r)
             if (!runOne(e))
               return;
           }
+  }
   r.labels["pin-pairs-enumerated"] = r.evaluations;
   // (2) single rules
   int idx = 0;
